@@ -176,6 +176,8 @@ inductive Loc where
   | buf (k : Nat)                      -- entry `k` of the static event buffer `BUF_CTX.events`
   | queue (c : Nat) (fwd : Bool) (k : Nat)   -- packet `k` in the buffer of channel `(c, fwd)`
   | kept (m : Nat) (k : Nat)           -- message `k` stored in the user state of module `m`
+  | inbox (m : Nat) (k : Nat)          -- message `k` waiting in the mpsc channel of the `AsyncFn` module `m`
+  | held (m : Nat) (k : Nat)           -- message `k` held by the task of the `AsyncFn` module `m`
   deriving DecidableEq, Repr
 
 inductive NId where
@@ -217,6 +219,16 @@ structure TaskD where
   joined : Bool                 -- a `JoinHandle` is stored in `async_ext.{try,must}_join`
   deriving Repr, DecidableEq
 
+/-- the task of a module built with `AsyncFn::{new, failable, io}` (des/src/net/runtime/blocks.rs): the
+    `AsyncFn` struct (the module state) keeps the sender, `at_sim_start` spawns the user's future with
+    the receiver and stores the `JoinHandle` (`try_join`). -/
+structure AfnD where
+  alive : Bool                  -- the task is still pending (blocked in `rx.recv()` or on a timer)
+  sleeping : Option Nat         -- `Some slot`: blocked on `sleep`, else blocked in `recv`
+  inbox : List MsgD             -- received by the module, not yet read by the task
+  held : List MsgD              -- messages the task keeps in its own state
+  deriving Repr, DecidableEq
+
 structure ModD where
   parent : Option Nat           -- effective only if smaller than the module's own index
   nPE : Nat
@@ -224,6 +236,7 @@ structure ModD where
   tasks : List TaskD
   slots : Nat                   -- `TimerSlot`s in the driver's queue
   kept : List MsgD
+  afn : Option AfnD := none     -- the module is an `AsyncFn` (its task has index `tasks.length`)
   deriving Repr, DecidableEq
 
 structure LinkD where
@@ -274,6 +287,9 @@ structure Desc where
   stop : Stop := .finishedOk
   /-- a variant of the code in which the panic hook captures a strong `Arc<Globals>` (seeded defect) -/
   hookGlobals : Bool := false
+  /-- a variant of the code in which the task spawned by `AsyncFn::failable` / `io` captures `current()`,
+      a strong `Arc<ModuleContext>` (seeded defect) -/
+  taskCtx : Bool := false
   deriving Repr
 
 def fld (s t : NId) : Edge NId := ⟨s, t, .field⟩
@@ -317,6 +333,23 @@ def taskEdges (m t : Nat) (td : TaskD) : List (Edge NId) :=
      [fld (.taskState m t) (.mpsc m t), fld (.mpsc m t) (.taskCell m t),
       fld (if inMod then .state m else .taskState m t) (.mpsc m t)])
 
+/-- the `AsyncFn` task `t` of module `m` -/
+def afnEdges (ctxBack : Bool) (m t : Nat) : Option AfnD → List (Edge NId)
+  | none => []
+  | some a =>
+    fld (.state m) (.mpsc m t) ::
+    ((enum a.inbox).flatMap (fun (k, msg) => fld (.mpsc m t) (.msg (.inbox m k)) :: msgEdges (.inbox m k) msg) ++
+     (if a.alive then
+       [fld (.tokioRt m) (.taskCell m t), fld (.tokioRt m) (.taskState m t), fld (.asyncExt m) (.taskCell m t),
+        fld (.taskState m t) (.mpsc m t), fld (.mpsc m t) (.taskCell m t)] ++
+       (match a.sleeping with
+        | some s => [fld (.taskState m t) (.sleepHandle m t),
+                     ⟨.timerSlot m s, .taskCell m t, .entry (.sleepHandle m t)⟩]
+        | none => []) ++
+       (if ctxBack then [fld (.taskState m t) (.ctx m)] else []) ++
+       (enum a.held).flatMap (fun (k, msg) => fld (.taskState m t) (.msg (.held m k)) :: msgEdges (.held m k) msg)
+      else []))
+
 def modEdges (d : Desc) (m : Nat) (md : ModD) : List (Edge NId) :=
   modRefEdges .tree m ++
   (match md.parent with
@@ -328,7 +361,8 @@ def modEdges (d : Desc) (m : Nat) (md : ModD) : List (Edge NId) :=
   (List.range md.slots).flatMap (fun s =>
     [fld (.timerQueue m) (.timerSlot m s), fld (.timerSlot m s) (.timerQueue m)]) ++
   (if md.running then
-    fld (.asyncExt m) (.tokioRt m) :: (enum md.tasks).flatMap (fun (t, td) => taskEdges m t td)
+    fld (.asyncExt m) (.tokioRt m) ::
+      ((enum md.tasks).flatMap (fun (t, td) => taskEdges m t td) ++ afnEdges d.taskCtx m md.tasks.length md.afn)
    else []) ++
   (enum md.kept).flatMap (fun (k, msg) => fld (.state m) (.msg (.kept m k)) :: msgEdges (.kept m k) msg) ++
   ((enum d.gates).filter (fun (g, o) => o = m && d.validGate g)).map (fun (g, _) => fld (.ctx m) (.gate g))
